@@ -28,7 +28,7 @@ LEVEL = "exploration"
 RUNS = {"quick": 30000, "thorough": 800000}
 WALL = {"quick": 240, "thorough": 1500}
 PARTITIONS = [{"name": "default", "env": {}}]
-FAULT_KINDS = ["extreme_magnitude", "reorder", "batch_split", "interleave", "axis_point", "origin_point", "signed_zero", "outside_radius",
+FAULT_KINDS = ["refused_fill_midstream", "extreme_magnitude", "reorder", "batch_split", "interleave", "axis_point", "origin_point", "signed_zero", "outside_radius",
                "wrong_dimension_probe", "projection", "transformed_path"]
 RULE = ("one run = one special class (polar, radial 2-D/3-D, azimuthal, spherical, spherical-surface, cylindrical) "
         "over seeded bins, a stream of <= 24 Cartesian points drawn from axis/origin/signed-zero/quadrant pools, and "
@@ -118,6 +118,12 @@ def generate(rng, seed, part):
                 order = list(idx)
                 rng.shuffle(order)
                 q += [{"r": r_id, "op": "point", "i": i} for i in order]
+                if q and rng.random() < 0.2:
+                    # a fill that is refused somewhere in the middle of the element-wise stream: whatever it left
+                    # behind must not change how the next points are binned
+                    q.insert(rng.randrange(len(q)), {"r": r_id, "op": "refused_fill",
+                                                      "how": rng.choice(["several_points", "wrong_length_transformed",
+                                                                         "bad_weight"])})
             else:
                 order = list(idx)
                 rng.shuffle(order)
@@ -414,6 +420,22 @@ def execute(plan, ctx):
                               f"returned {ret!r} but find_bin gives {ix_c!r}")
             bags[r_id].append(i)
             used_paths.add(path)
+        elif o == "refused_fill":
+            how = op["how"]
+            p0 = [0.5] * d
+            if how == "several_points":
+                ok, res = attempt(h.fill, np.asarray([p0, p0, p0]))
+            elif how == "wrong_length_transformed":
+                ok, res = attempt(h.fill, [0.5] * (h.ndim + 1), transformed=True)
+            else:
+                ok, res = attempt(h.fill, p0, "heavy")
+            ctx.ev(r_id, f"refused_fill:{how}", None, "accepted" if ok else exc_tag(res))
+            ctx.abstract("refused_fill", how, name, ok)
+            if ok:
+                ctx.probe(f"invalid_fill_accepted:{how}")  # (refusal itself is C18's subject)
+                poisoned.add(r_id)
+            else:
+                ctx.fault("refused_fill_midstream")
         elif o == "batch":
             idx = [i for i in op["idx"] if i < len(pts)]
             if not idx:
